@@ -112,6 +112,24 @@ Theorem C13_remote_frame_not_accepted : forall e l f, sh_remote f = true -> shap
 Proof. exact remote_not_accepted. Qed.
 Print Assumptions C13_remote_frame_not_accepted.
 
+(** which hook runs (RunLts.v section 5: one runner thread - KLock / KUnlock = its critical section in
+    which it reads the hook field, KCall h = it calls hook h - against application critical sections
+    KSet h' that replace the hook; krun = fold of kstep from kinit f0 = field initially f0): the hook
+    called is the value the field had when the runner's critical section began, whatever is installed
+    between the runner's Unlock and the call; and the field cannot be replaced inside that section *)
+Theorem C13_hook_called_is_read_under_lock : forall pre mid h f0 k,
+  krun (kinit f0) (pre ++ [KLock]) = Some k ->
+  (forall e, In e mid -> e <> KLock) ->
+  (exists k', krun k (mid ++ [KCall h]) = Some k') ->
+  h = k_field k.
+Proof. exact kcall_is_locked_read. Qed.
+Print Assumptions C13_hook_called_is_read_under_lock.
+
+Theorem C13_hook_not_replaced_while_locked : forall k h k',
+  kstep k (KSet h) = Some k' -> k_pc k <> KLocked /\ k_snap k' = k_snap k.
+Proof. exact kset_not_while_locked. Qed.
+Print Assumptions C13_hook_not_replaced_while_locked.
+
 (** non-vacuity: a receiver (1), a transmitter (2) and an application thread (3) interleaved -
     one received frame with a hook that takes the lock, one event transmit whose hook mutates the
     message, an application critical section in between; the trace is accepted, satisfies the
@@ -130,5 +148,8 @@ Example C13_nonvacuous :
   discipline_ok (init c13_cfg) c13_trace = true /\
   accepts c13_cfg (filter (fun e => match e with Lock 1 => false | _ => true end) c13_trace) = false /\
   raw_discipline None c13_trace 0 = None /\
-  raw_discipline None [Lock 1; Access 1 (WUnmarshal false); Done 1 false] 0 = Some (2, DvExitLocked).
+  raw_discipline None [Lock 1; Access 1 (WUnmarshal false); Done 1 false] 0 = Some (2, DvExitLocked) /\
+  (* hook 7 installed; replaced by 9 in the window after the runner's Unlock: 7 runs for this frame, 9 for the next *)
+  (match krun (kinit 7) [KLock; KUnlock; KSet 9; KCall 7; KLock; KUnlock; KCall 9] with Some _ => True | None => False end) /\
+  krun (kinit 7) [KLock; KUnlock; KSet 9; KCall 9] = None /\ krun (kinit 7) [KLock; KSet 9] = None.
 Proof. vm_compute. repeat split. Qed.
